@@ -3,7 +3,9 @@ package sim
 import (
 	"bytes"
 	"context"
+	"errors"
 	"fmt"
+	"github.com/pingcap/kvproto/pkg/kvrpcpb"
 	"math"
 	"sort"
 	"strings"
@@ -49,6 +51,9 @@ type Step struct {
 	Async       bool
 	OnePC       bool
 	Causal      bool
+	AssertLevel int    // begin: 0 = off, 1 = fast, 2 = strict (SetAssertionLevel)
+	Assert      string // set / insert / delete: "", "exist" or "notexist" - the assertion flag put on the key after the write
+	SchemaFail  bool   // begin: install a schema-lease checker that reports a schema change, so that Commit fails with a definite error (before prewrite for async commit / 1PC, between prewrite and commit otherwise)
 	// lock
 	ReturnValues     bool
 	CheckExistence   bool
@@ -75,6 +80,12 @@ func (s *Step) String() string {
 	switch s.Op {
 	case "begin":
 		fmt.Fprintf(&b, "(client=%d,pess=%v,async=%v,1pc=%v,causal=%v)", s.Client, s.Pessimistic, s.Async, s.OnePC, s.Causal)
+		if s.SchemaFail {
+			b.WriteString("{schema-changed}")
+		}
+		if s.AssertLevel > 0 {
+			fmt.Fprintf(&b, "{assertions=%d}", s.AssertLevel)
+		}
 	case "iter", "iterrev":
 		fmt.Fprintf(&b, "(%q,%q)", s.Lo, s.Hi)
 	case "set", "insert":
@@ -82,10 +93,16 @@ func (s *Step) String() string {
 		if s.LockFirst {
 			b.WriteString("!")
 		}
+		if s.Assert != "" {
+			b.WriteString("{assert-" + s.Assert + "}")
+		}
 	case "delete":
 		fmt.Fprintf(&b, "(%s)", strings.Join(s.Keys, ","))
 		if s.LockFirst {
 			b.WriteString("!")
+		}
+		if s.Assert != "" {
+			b.WriteString("{assert-" + s.Assert + "}")
 		}
 	case "lock":
 		fmt.Fprintf(&b, "(%s,ret=%v,chk=%v,onlyIfExists=%v,wait=%d)", strings.Join(s.Keys, ","), s.ReturnValues, s.CheckExistence, s.LockOnlyIfExists, s.WaitMs)
@@ -115,6 +132,25 @@ var cmdByName = map[string]tikvrpc.CmdType{
 	"BatchGet": tikvrpc.CmdBatchGet, "Scan": tikvrpc.CmdScan, "BatchRollback": tikvrpc.CmdBatchRollback, "PessimisticRollback": tikvrpc.CmdPessimisticRollback,
 	"ResolveLock": tikvrpc.CmdResolveLock, "CheckTxnStatus": tikvrpc.CmdCheckTxnStatus, "Cleanup": tikvrpc.CmdCleanup, "TxnHeartBeat": tikvrpc.CmdTxnHeartBeat,
 	"CheckSecondaryLocks": tikvrpc.CmdCheckSecondaryLocks, "Flush": tikvrpc.CmdFlush, "": 0,
+}
+
+// assertKey puts the step's assertion flag on the key just written (as TiDB does for the rows a statement writes).
+func (w *World) assertKey(t *TxnRec, txn *transaction.KVTxn, s *Step) {
+	if s.Assert == "" {
+		return
+	}
+	op := kv.SetAssertExist
+	if s.Assert == "notexist" {
+		op = kv.SetAssertNotExist
+	}
+	txn.GetMemBuffer().UpdateFlags([]byte(s.Keys[0]), op)
+	t.Writes[len(t.Writes)-1].Assert = s.Assert
+}
+
+type schemaChanged struct{}
+
+func (schemaChanged) CheckBySchemaVer(uint64, transaction.SchemaVer) (*transaction.RelatedSchemaChange, error) {
+	return nil, errors.New("sim: information schema is changed")
 }
 
 // World executes programs on a cluster and records the history.
@@ -266,6 +302,13 @@ func (w *World) Exec(s *Step) {
 		txn.SetEnableAsyncCommit(s.Async)
 		txn.SetEnable1PC(s.OnePC)
 		txn.SetCausalConsistency(s.Causal)
+		if s.SchemaFail {
+			txn.SetSchemaLeaseChecker(schemaChanged{})
+		}
+		if s.AssertLevel > 0 {
+			txn.SetAssertionLevel(kvrpcpb.AssertionLevel(s.AssertLevel))
+			t.AssertLevel = s.AssertLevel
+		}
 		t.StartTS = txn.StartTS()
 		w.Txns[s.Txn], w.handles[s.Txn] = t, txn
 		w.order = append(w.order, s.Txn)
@@ -408,6 +451,7 @@ func (w *World) Exec(s *Step) {
 			w.Fail("Set failed: %v", err)
 		}
 		t.Writes = append(t.Writes, WriteRec{Key: s.Keys[0], Op: "set", Value: v, Step: w.StepNo})
+		w.assertKey(t, txn, s)
 	case "insert":
 		v := []byte(s.Val)
 		k := []byte(s.Keys[0])
@@ -417,6 +461,7 @@ func (w *World) Exec(s *Step) {
 				w.Fail("Set failed: %v", err)
 			}
 			t.Writes = append(t.Writes, WriteRec{Key: s.Keys[0], Op: "set", Value: v, Step: w.StepNo})
+			w.assertKey(t, txn, s)
 			return
 		}
 		if !t.Pessimistic {
@@ -424,6 +469,7 @@ func (w *World) Exec(s *Step) {
 				w.Fail("SetWithFlags failed: %v", err)
 			}
 			t.Writes = append(t.Writes, WriteRec{Key: s.Keys[0], Op: "insert", Value: v, Step: w.StepNo})
+			w.assertKey(t, txn, s)
 			return
 		}
 		// pessimistic insert as a statement: stage, write with presume-not-exists, lock (existence is checked by the lock); undo on failure
@@ -444,6 +490,7 @@ func (w *World) Exec(s *Step) {
 		txn.GetMemBuffer().Release(h)
 		t.Locks = append(t.Locks, LockRec{Keys: []string{s.Keys[0]}, ForUpdateTS: fu, Step: w.StepNo})
 		t.Writes = append(t.Writes, WriteRec{Key: s.Keys[0], Op: "insert", Value: v, Step: w.StepNo})
+		w.assertKey(t, txn, s)
 	case "delete":
 		if !w.lockFirst(t, txn, c, s) {
 			return
@@ -452,8 +499,27 @@ func (w *World) Exec(s *Step) {
 			w.Fail("Delete failed: %v", err)
 		}
 		t.Writes = append(t.Writes, WriteRec{Key: s.Keys[0], Op: "delete", Step: w.StepNo})
+		w.assertKey(t, txn, s)
 	case "lock":
 		if !t.Pessimistic {
+			// LockKeys of an optimistic transaction sends nothing: the keys are marked in the buffer and prewritten as
+			// lock-type mutations (or with their value, if written too), i.e. conflict-checked from the start ts on
+			var ks [][]byte
+			var names []string
+			uniq := map[string]bool{}
+			for _, k := range s.Keys {
+				if !uniq[k] {
+					uniq[k] = true
+					ks = append(ks, []byte(k))
+					names = append(names, k)
+				}
+			}
+			if err := txn.LockKeys(ctx, kv.NewLockCtx(t.StartTS, kv.LockNoWait, time.Now()), ks...); err != nil {
+				w.Log = append(w.Log, fmt.Sprintf("  lock error: %v", err))
+				return
+			}
+			sort.Strings(names)
+			t.Locks = append(t.Locks, LockRec{Keys: names, ForUpdateTS: t.StartTS, Step: w.StepNo})
 			return
 		}
 		fu, err := w.forUpdateTS(c)
